@@ -222,7 +222,13 @@ def insufficient_rule(ctx, facts, rid):
         got = None
         if len(res) == 1:
             rv = res.pop()
-            got = rv == ("const", 1, "bool")
+            if rv is not None and rv[0] == "const":
+                got = rv == ("const", 1, "bool")
+            elif rv is not None:
+                # the last test returned as a value (`a == b` as tail expression)
+                rc = rec(rv)
+                if rc is not None and rc[0] == "pred":
+                    got = pt[rc[1]] == rc[2]
         if got != want and bad is None:
             bad = (dict(knights=(nl, nd), bishops=(bl, bd), others=(ol, od)), got, want)
     r.check(bad is None, "insufficient/table", "is_insufficient_material on material (light,dark counts) %s returns %s, the statement says %s"
